@@ -179,8 +179,8 @@ type recRange struct {
 	msgs int
 }
 
-func (s *recRange) Context() context.Context               { return s.ctx }
-func (s *recRange) Send(*regattapb.RangeResponse) error    { s.msgs++; return nil }
+func (s *recRange) Context() context.Context            { return s.ctx }
+func (s *recRange) Send(*regattapb.RangeResponse) error { s.msgs++; return nil }
 
 func classifyRange(t, k, re bfield, limit int64, keysOnly, countOnly bool, filter int) want {
 	var cs []codes.Code
